@@ -11,7 +11,7 @@
 (*    gh                              -- ghost / history state               *)
 (* `Violations` is the set of names of predicates that fail in a state.     *)
 (***************************************************************************)
-EXTENDS Base
+EXTENDS Base, Inflights
 
 VARIABLES node, up, stor, dur, app, cfg, pre, evt, gh
 
@@ -389,7 +389,7 @@ C13_Window ==
             /\ (Q.pr[j].state = "R" /\ j # i) =>
                    \A x \in GenTo(j, {"App"}) :
                        HasEntries(evt.gen[x]) =>
-                           \E y \in DOMAIN Q.pr[j].ins.q : Q.pr[j].ins.q[y] >= Last(evt.gen[x].ents).i
+                           \E y \in DOMAIN RQ(Q.pr[j].ins) : RQ(Q.pr[j].ins)[y] >= Last(evt.gen[x].ents).i
 
 (* events that cannot legitimately un-pause / leave snapshot state for follower j *)
 ResumesFor(j) ==
@@ -440,19 +440,14 @@ Installed == SameInc /\ IsDeliver("Snap") /\ Q.log.usnap.i > 0 /\ Q.log.usnap # 
 
 C15_InstallOnlyIf ==
     Installed => /\ M.snap.i >= P.log.committed
-                 /\ i \in (Range(M.snap.conf.voters) \cup Range(M.snap.conf.outgoing)
-                           \cup Range(M.snap.conf.learners) \cup Range(M.snap.conf.learnersNext))
+                 /\ i \in MembersOf(M.snap.conf)
 
 C15_AfterInstall ==
     Installed => /\ Q.log.usnap.i = M.snap.i /\ Q.log.usnap.t = M.snap.t
                  /\ Q.log.committed = M.snap.i
                  /\ LogLast(Q, QS) = M.snap.i
                  /\ LogTerm(Q, QS, M.snap.i) = M.snap.t
-                 /\ Q.conf.voters = Range(M.snap.conf.voters)
-                 /\ Q.conf.outgoing = Range(M.snap.conf.outgoing)
-                 /\ Q.conf.learners = Range(M.snap.conf.learners)
-                 /\ Q.conf.learnersNext = Range(M.snap.conf.learnersNext)
-                 /\ Q.conf.autoLeave = M.snap.conf.autoLeave
+                 /\ Q.conf = M.snap.conf
                  /\ Q.prs = 0
 
 C15_MatchingSnapshotKeepsLog ==
